@@ -89,6 +89,34 @@ Theorem C19_distinct_wrapped_ceks : forall c, IdealLaws c -> forall k x w k' x' 
 Proof. exact distinct_wrapped_ceks. Qed.
 Print Assumptions C19_distinct_wrapped_ceks.
 
+(* the two halves together, over a whole history: cache_inv (the root key is loaded, every cache entry sits under the key its
+   envelope names, every entry of this root key conforms to its chain) is kept by every protect and unprotect call whatever
+   their arguments (C19_cache_inv_kept); hence, when every protect call of the history is a well-formed nonce-mode call for this
+   root key (call_ok: accepted SID, time >= 0, draws of 12 and 32 bytes, outputs shorter than 2^32), the blobs of any two
+   successful protect calls -- also with identical arguments, also with unprotect calls of arbitrary bytes in between --
+   carry different GCM nonces, key-identifier nonces, wrapped CEKs and ciphertexts *)
+Theorem C19_cache_inv_kept : forall c h rk rkid, rk_hash rk = Ok h -> rk_kdf_alg rk = STR_KDF_ALG ->
+  forall cache, cache_inv c h rk rkid cache ->
+  (forall r1 r2 r3 data sid rid time_ns, cache_inv c h rk rkid (snd (protect_offline c cache r1 r2 r3 data sid rid time_ns))) /\
+  (forall bs, cache_inv c h rk rkid (snd (unprotect_offline c cache bs))).
+Proof. exact cache_inv_kept. Qed.
+Print Assumptions C19_cache_inv_kept.
+
+Theorem C19_fresh_blobs : forall c h rk rkid, rk_hash rk = Ok h -> rk_kdf_alg rk = STR_KDF_ALG -> len rkid = 16 -> kdf_nonempty c ->
+  IdealLaws c ->
+  forall rnd ops cur cache i j ci cj Bi Bj,
+  cache_inv c h rk rkid cache ->
+  (forall a k, In (Protect a) ops -> (k < length (trace c rnd cur cache ops))%nat ->
+     call_ok c h rk rkid (rnd (cur + 3 * k)%nat) (rnd (cur + 3 * k + 1)%nat) (rnd (cur + 3 * k + 2)%nat) a) ->
+  rnd_distinct_below rnd (snd (protect_many c rnd cur cache ops)) -> i <> j ->
+  nth_error (trace c rnd cur cache ops) i = Some (ci, Ok Bi) -> nth_error (trace c rnd cur cache ops) j = Some (cj, Ok Bj) ->
+  exists bi bj ni nj, blob_unpack Bi = Ok bi /\ blob_unpack Bj = Ok bj /\
+    gcm_iv_of_parameters (b_enc_content_parameters bi) = Ok ni /\ gcm_iv_of_parameters (b_enc_content_parameters bj) = Ok nj /\ ni <> nj /\
+    kid_key_info (b_key_identifier bi) <> kid_key_info (b_key_identifier bj) /\
+    b_enc_cek bi <> b_enc_cek bj /\ b_enc_content bi <> b_enc_content bj /\ Bi <> Bj.
+Proof. exact fresh_blobs. Qed.
+Print Assumptions C19_fresh_blobs.
+
 (* Public-key mode: the key identifier carries the ephemeral public key g^x mod p (DH) or x*G (ECDH) of the third draw x.
    Full statement (NOT proved): under rnd_distinct the key_info fields of any two protect calls in public-key mode are
    distinct. It needs injectivity of x |-> g^x mod p on the drawn range (resp. of scalar multiplication), which is a
@@ -135,3 +163,11 @@ Example C19_example_in_blob : exists blob cache1 b e0 kek p,
   Ok (b_enc_content b) = gcm_enc symg ex_r1 ex_r2 [1; 2; 3] /\ Ok (b_enc_cek b) = kw_wrap symg kek ex_r1 /\
   cc_find_seed (cc_seeds cache1) (ex_rkid, target_sd (parsed ex_sid), 361) = Some e0.
 Proof. exact ex_in_blob. Qed.
+(* the history of C19_example_trace meets every hypothesis of C19_fresh_blobs (ex_cache_inv, ex_calls_ok, ex_rnd_distinct, symg_ideal) *)
+Example C19_example_fresh_blobs : forall i j ci cj Bi Bj, i <> j ->
+  nth_error ex_trace i = Some (ci, Ok Bi) -> nth_error ex_trace j = Some (cj, Ok Bj) ->
+  exists bi bj ni nj, blob_unpack Bi = Ok bi /\ blob_unpack Bj = Ok bj /\
+    gcm_iv_of_parameters (b_enc_content_parameters bi) = Ok ni /\ gcm_iv_of_parameters (b_enc_content_parameters bj) = Ok nj /\ ni <> nj /\
+    kid_key_info (b_key_identifier bi) <> kid_key_info (b_key_identifier bj) /\
+    b_enc_cek bi <> b_enc_cek bj /\ b_enc_content bi <> b_enc_content bj /\ Bi <> Bj.
+Proof. exact ex_fresh_blobs. Qed.
